@@ -29,6 +29,10 @@ impl Case {
         let op = op.into();
         debug_assert!(!op.contains('\n'));
         self.steps.push((op, out.into().replace('\n', "\\n")));
+        // the driver call recorded by this step has returned: open notification obligations are lost
+        for f in crate::wake::take_lost() {
+            self.oracle_failures.push(f);
+        }
     }
     pub fn fail(&mut self, what: impl Into<String>) {
         self.oracle_failures.push(what.into());
